@@ -3,6 +3,8 @@ use crate::engine::{Case, Ctx, Verdict};
 use crate::refm::eval::RefOutcome;
 use crate::subject::{MachineryError, Outcome};
 
+pub mod c04;
+pub mod c05;
 pub mod c06;
 pub mod c07;
 pub mod c11;
@@ -17,6 +19,8 @@ pub trait Check: Sync {
 
 pub fn get(id: &str) -> Option<Box<dyn Check>> {
     match id {
+        "C04" => Some(Box::new(c04::C04)),
+        "C05" => Some(Box::new(c05::C05)),
         "C06" => Some(Box::new(c06::C06)),
         "C07" => Some(Box::new(c07::C07)),
         "C11" => Some(Box::new(c11::C11)),
@@ -26,7 +30,7 @@ pub fn get(id: &str) -> Option<Box<dyn Check>> {
 }
 
 pub fn all_ids() -> Vec<&'static str> {
-    vec!["C06", "C07", "C11", "C16"]
+    vec!["C04", "C05", "C06", "C07", "C11", "C16"]
 }
 
 /// does `msg` mention `parts` in this order (each after the previous one)?
